@@ -85,7 +85,7 @@ fn main() {
     let mut rng = Rng::new(a.seed);
     let mut run = Run::new(&a.out);
     quiet_panics();
-    let nseq = if a.thorough() { 4000 } else { 260 };
+    let nseq = if a.thorough() { 8000 } else { 260 };
 
     // ---- single factors, phases, walker, next
     let d = Discount::default();
@@ -294,6 +294,31 @@ fn main() {
                 run.fail("regret-not-discounted-sum", &format!("{what}, action {i}"), &format!("{want:e}"), &format!("{got:e}"));
                 break;
             }
+        }
+    }
+
+    // ---- observation (outside the quantifier): what a resumed profile does at its first visit.
+    //      `Profile::load` resets the counter to 0; the first add_policy multiplies the loaded
+    //      average strategy by (0/1)^gamma = 0, the first non-zero add_regret the loaded regret by 0.
+    {
+        let mut p = Profile::default();
+        let b = Bucket::from((Path::from(11u64), Abstraction::from(5u64), Path::from(13u64)));
+        p.verif_set_memory(&b, &Edge::Fold, 40.0, 0.9);
+        p.verif_set_memory(&b, &Edge::Call, -7.0, 0.1);
+        p.verif_set_epochs(0);
+        let r: BTreeMap<Edge, f32> = [(Edge::Fold, 1.0), (Edge::Call, 0.0)].into_iter().collect();
+        let q: BTreeMap<Edge, f32> = [(Edge::Fold, 0.5), (Edge::Call, 0.5)].into_iter().collect();
+        p.add_regret(&b, &Regret::from(r));
+        p.add_policy(&b, &Policy::from(q));
+        let f = p.verif_memory(&b, &Edge::Fold).unwrap();
+        let c = p.verif_memory(&b, &Edge::Call).unwrap();
+        run.notes.push(format!(
+            "resume observation (real code, counter 0 as after Profile::load): stored (regret, policy) Fold (40, 0.9), Call (-7, 0.1); \
+             after add_regret {{Fold: 1, Call: 0}} + add_policy {{0.5, 0.5}}: Fold ({}, {}), Call ({}, {}) — the loaded average strategy and the \
+             loaded regret of an action with a non-zero new regret are multiplied by 0 (closed form with t0 = 0)", f.0, f.1, c.0, c.1));
+        run.spec_checked += 1;
+        if !(f == (1.0, 0.5) && c == (-7.0, 0.5)) {
+            run.fail("resume-first-visit-differs-from-closed-form", "loaded (40,0.9),(-7,0.1) at counter 0", "Fold (1, 0.5), Call (-7, 0.5)", &format!("Fold {f:?}, Call {c:?}"));
         }
     }
 
